@@ -11,7 +11,7 @@ import (
 
 func init() {
 	register("C20", propMeta{
-		Explanation: "E-LOCK. A flow-sensitive must-lockset is computed over the SSA of every repository function (entry lockset = intersection over call sites, container/heap and sync.Once callbacks modelled as calls, goroutine bodies/callbacks/interface-exposed methods start empty). O-1: every read and write of every field in the explicit guarded-by table (built by reading the anchors; ~60 rows: matching state, metrics, client map, session maps, traffic counters) happens under its protection - the named mutex (write mode for writes), sync/atomic only, or immutable after publication (writes only to a not-yet-published fresh object or in a listed start-up function); for 'deep' rows the map/slice/list behind the field as well. O-2: every Lock/RLock is released on all paths, no Unlock of a lock not held, no self-deadlock, and the acquired-while-holding graph is acyclic. O-3: a field accessed through sync/atomic is never accessed plainly, including by copying the struct through a value receiver. O-4: a byte slice sent through a turbotunnel packet queue (and so handed to another goroutine) is a private copy made by the sender, never the caller's buffer, which the caller goes on writing. An access outside its protection is a pair of conflicting accesses with no ordering synchronisation for some schedule, i.e. a data race; each rule is therefore a necessary condition of race freedom for the listed state. Added after the second seeding round: O-5 no store through a package-level variable of another module or the standard library outside package initialisation and main's direct start-up assignments (D20, D21: http.DefaultTransport configured in place); O-6 a goroutine body (go target plus its single-call-site helpers) stores to, or slices an array field of, a non-fresh object only if the field has a row in the table or some repository lock is held there (D22). Added after the third seeding round: O-1b no method of a struct that carries its own mutex has a value receiver; deep accesses (map, slice, pointee) through a local copy of a struct are judged like accesses through the original. Added after the fourth seeding round: O-7 a local variable captured by reference is not assigned by one goroutine body and used by another without a common mutex; a start-up write must precede every go statement of that function that receives the object; rows for Peers; a function value handed to a helper that only calls it synchronously inherits the helper's lockset; freshness is followed through a captured local pointer variable.",
+		Explanation: "E-LOCK. A flow-sensitive must-lockset is computed over the SSA of every repository function (entry lockset = intersection over call sites, container/heap and sync.Once callbacks modelled as calls, goroutine bodies/callbacks/interface-exposed methods start empty). O-1: every read and write of every field in the explicit guarded-by table (built by reading the anchors; ~60 rows: matching state, metrics, client map, session maps, traffic counters) happens under its protection - the named mutex (write mode for writes), sync/atomic only, or immutable after publication (writes only to a not-yet-published fresh object or in a listed start-up function); for 'deep' rows the map/slice/list behind the field as well. O-2: every Lock/RLock is released on all paths, no Unlock of a lock not held, no self-deadlock, and the acquired-while-holding graph is acyclic. O-3: a field accessed through sync/atomic is never accessed plainly, including by copying the struct through a value receiver. O-4: a byte slice sent through a turbotunnel packet queue (and so handed to another goroutine) is a private copy made by the sender, never the caller's buffer, which the caller goes on writing. An access outside its protection is a pair of conflicting accesses with no ordering synchronisation for some schedule, i.e. a data race; each rule is therefore a necessary condition of race freedom for the listed state. Added after the second seeding round: O-5 no store through a package-level variable of another module or the standard library outside package initialisation and main's direct start-up assignments (D20, D21: http.DefaultTransport configured in place); O-6 a goroutine body (go target plus its single-call-site helpers) stores to, or slices an array field of, a non-fresh object only if the field has a row in the table or some repository lock is held there (D22). Added after the third seeding round: O-1b no method of a struct that carries its own mutex has a value receiver; deep accesses (map, slice, pointee) through a local copy of a struct are judged like accesses through the original. Added after the fourth seeding round: O-7 a local variable captured by reference is not assigned by one goroutine body and used by another without a common mutex; a start-up write must precede every go statement of that function that receives the object; rows for Peers; a function value handed to a helper that only calls it synchronously inherits the helper's lockset; freshness is followed through a captured local pointer variable. Added after the fifth seeding round: O-8 no send races with a close (thorough tier: every package); O-9 NewSnowflakeClient and its literals store into no element of a slice that comes from the config parameter (the backing array is shared with every other copy of the configuration).",
 		NotDecided:  "races on state outside the table (third-party objects, local variables captured by several closures), happens-before through channels other than the immutable-after-publication class, instance confusion (locks are named by type and field, not by object).",
 		Assumptions: []string{"lock identity is (type, field): two instances of one struct are not distinguished", "start-up writes listed in the table happen before any concurrent reader exists (single-goroutine initialisation in main)", "dynamic calls neither acquire nor release repository locks"},
 	}, runC20)
@@ -43,6 +43,8 @@ func runC20(c *Ctx) {
 	c.checkCopyOnEnqueueFor("O-4 buffers crossing goroutines are private copies", senders)
 	c.checkForeignGlobalWrites("O-5 process-wide library objects are not modified", scope)
 	c.checkGoroutineFieldWrites("O-6 goroutine bodies modify only state with a protection row", scope)
+	c.checkNoSendRacesClose("O-8 no send races with a close", scope)
+	c.checkConfigSlicesNotModified("O-9 a configuration slice is not reordered in place")
 	c.checkCapturedCellRaces("O-7 a local variable is not written by one goroutine and used by another", scope)
 	if c.Thorough {
 		c.inferGuardCandidates(scope)
@@ -539,5 +541,99 @@ func (c *Ctx) checkCapturedCellRaces(rule string, scope []*ssa.Function) {
 	}
 	if bad == 0 {
 		c.ok(rule, "variables captured by goroutine bodies", "-", fmt.Sprintf("%d captured variable(s) used by goroutine bodies; none assigned by one and used by another", nCells))
+	}
+}
+
+// checkConfigSlicesNotModified: NewSnowflakeClient receives its ClientConfig by
+// value, but the slices in it share their backing arrays with the caller's copy
+// (and with the copies other connections were given). It, and the literals it
+// creates (the shuffle callback), store into no element of a slice that comes
+// from the config parameter.
+func (c *Ctx) checkConfigSlicesNotModified(rule string) {
+	p := c.P
+	fn := p.Fn("client/lib", "NewSnowflakeClient")
+	if fn == nil || len(fn.Params) == 0 {
+		c.undecided(rule, "client/lib.NewSnowflakeClient", "-", "anchor does not resolve")
+		return
+	}
+	cfg := fn.Params[0]
+	// the same backing array: the config's field itself, re-sliced or merged - not something a call made from it
+	var fromConfig func(v ssa.Value) bool
+	seenFC := map[ssa.Value]bool{}
+	fromConfig = func(v ssa.Value) bool {
+		v = strip(v)
+		if seenFC[v] {
+			return false
+		}
+		seenFC[v] = true
+		defer delete(seenFC, v)
+		switch x := v.(type) {
+		case *ssa.Slice:
+			return fromConfig(x.X)
+		case *ssa.Phi:
+			for _, e := range x.Edges {
+				if fromConfig(e) {
+					return true
+				}
+			}
+			return false
+		case *ssa.Field:
+			return strip(x.X) == ssa.Value(cfg)
+		case *ssa.Call, *ssa.MakeSlice:
+			return false
+		}
+		if base, _, ok := fieldLoad(v); ok {
+			b := strip(base)
+			if b == ssa.Value(cfg) {
+				return true
+			}
+			// the parameter spilled to a local copy
+			if al, isAl := b.(*ssa.Alloc); isAl && al.Referrers() != nil {
+				for _, r := range *al.Referrers() {
+					if st, isSt := r.(*ssa.Store); isSt && st.Addr == ssa.Value(al) && st.Val == ssa.Value(cfg) {
+						return true
+					}
+				}
+			}
+		}
+		return false
+	}
+	n, bad := 0, 0
+	for _, f := range withAnon(fn) {
+		allInstrs(f, func(in ssa.Instruction) {
+			st, ok := in.(*ssa.Store)
+			if !ok {
+				return
+			}
+			ia, ok := st.Addr.(*ssa.IndexAddr)
+			if !ok {
+				return
+			}
+			n++
+			base := ia.X
+			// resolve a captured slice variable to what the enclosing function stored in it
+			if ld, isLd := base.(*ssa.UnOp); isLd {
+				if fv, isFV := ld.X.(*ssa.FreeVar); isFV {
+					if b := freeVarBinding(fv); b != nil {
+						if al, isAl := b.(*ssa.Alloc); isAl && al.Referrers() != nil {
+							for _, r := range *al.Referrers() {
+								if s2, isSt := r.(*ssa.Store); isSt && s2.Addr == ssa.Value(al) && fromConfig(s2.Val) {
+									bad++
+									c.viol(rule, p.FnName(f)+" stores into an element of a slice of the config parameter", p.instrPos(st), "the slice shares its backing array with every other copy of the configuration: shuffling or editing it in place races with the other connections that read it and changes their configuration")
+									return
+								}
+							}
+						}
+					}
+				}
+			}
+			if fromConfig(base) {
+				bad++
+				c.viol(rule, p.FnName(f)+" stores into an element of a slice of the config parameter", p.instrPos(st), "the slice shares its backing array with every other copy of the configuration: editing it in place races with the other connections that read it")
+			}
+		})
+	}
+	if bad == 0 {
+		c.ok(rule, "NewSnowflakeClient modifies no element of a slice it was configured with", p.Pos(fn.Pos()), fmt.Sprintf("%d element store(s) examined", n))
 	}
 }
